@@ -15,7 +15,7 @@ func init() {
 		Doc: "write callbacks and xBegin reach only read requests; rollback reaches no request at all"})
 	register(&Rule{Name: "C05.snapshot", Min: 5, Run: c05Snapshot,
 		Doc: "txStart typestate: only ever a Clone of the live root; restored by Rollback; cleared by Commit only after the storage commit succeeded"})
-	register(&Rule{Name: "C05.txtime", Min: 5, Run: c05TxTime,
+	register(&Rule{Name: "C05.txtime", Min: 4, Run: c05TxTime,
 		Doc: "transaction write-time flag protocol in the sqlite layer"})
 	claim("C05", "C05 clauses decided: effects (nothing is written to the bucket before xSync, ROLLBACK cannot create a version), snapshot (txStart protocol on all paths), txtime (a transaction's write time is fixed once, only when the connection has none, and released by every transaction end), handle (shared with C14: the live handle is cancelled before it is replaced). Not decided: copy-on-write independence inside mast (dependency), visibility of own writes, contents after a failing statement.",
 		"C05.effects", "C05.snapshot", "C05.txtime", "C14.handle")
@@ -178,6 +178,27 @@ func extraConditions(fn *ssa.Function, b *ssa.BasicBlock, allowed func(ssa.Value
 	return out
 }
 
+// onlyCalledFrom: fn is one of roots, or every static call site of fn lies in such a function
+// (helper extraction, bounded depth).
+func onlyCalledFrom(c *Ctx, fn *ssa.Function, roots map[*ssa.Function]bool, depth int) bool {
+	if roots[fn] {
+		return true
+	}
+	if depth > 2 {
+		return false
+	}
+	sites := staticCallSites(c, fn)
+	if len(sites) == 0 {
+		return false
+	}
+	for _, s := range sites {
+		if !onlyCalledFrom(c, s.Parent(), roots, depth+1) {
+			return false
+		}
+	}
+	return true
+}
+
 func c05TxTime(c *Ctx) {
 	const rule = "C05.txtime"
 	flag := mustField(c, "sqlite", "S3DBConn", "txFixedWriteTime")
@@ -203,6 +224,42 @@ func c05TxTime(c *Ctx) {
 	for _, b := range begins {
 		beginSet[b.Fn] = true
 	}
+	// guardedByIsZero: block b of fn runs only when writeTime.IsZero() (tested in fn itself, or
+	// fn is a helper whose every call site is so guarded)
+	var guardedByIsZero func(fn *ssa.Function, b *ssa.BasicBlock, depth int) bool
+	guardedByIsZero = func(fn *ssa.Function, b *ssa.BasicBlock, depth int) bool {
+		for _, blk := range fn.Blocks {
+			iff, ok := blk.Instrs[len(blk.Instrs)-1].(*ssa.If)
+			if !ok {
+				continue
+			}
+			cond, neg := an.StripNot(iff.Cond)
+			cl, ok := cond.(*ssa.Call)
+			if !ok || cl.Call.StaticCallee() == nil || cl.Call.StaticCallee().Name() != "IsZero" || len(cl.Call.Args) != 1 || an.FieldOfLoad(cl.Call.Args[0]) != wt {
+				continue
+			}
+			si := 0
+			if neg {
+				si = 1
+			}
+			if an.OnlyVia(blk, si, b) {
+				return true
+			}
+		}
+		if depth < 2 {
+			sites := staticCallSites(c, fn)
+			if len(sites) == 0 {
+				return false
+			}
+			for _, s := range sites {
+				if !guardedByIsZero(s.Parent(), s.Block(), depth+1) {
+					return false
+				}
+			}
+			return true
+		}
+		return false
+	}
 	// stores of true
 	for _, fn := range c.P.RepoFuncs(func(rel string) bool { return rel == "sqlite" }) {
 		for _, st := range an.StoresToField(fn, flag) {
@@ -213,47 +270,24 @@ func c05TxTime(c *Ctx) {
 			fname := core.FuncName(fn)
 			c.R.SawFunc(fname)
 			pos := c.P.Pos(st.Pos())
-			if !beginSet[fn] {
-				c.R.Bad(rule, fname+": fixes the write time", pos, "txFixedWriteTime is set outside xBegin")
+			if !onlyCalledFrom(c, fn, beginSet, 0) {
+				c.R.Bad(rule, "fixes the write time in xBegin only", pos, "txFixedWriteTime is set in "+fname+", which is not (only called from) xBegin")
 				continue
 			}
-			// only when the connection has no write time: guarded by writeTime.IsZero()
-			g := false
-			for _, blk := range fn.Blocks {
-				iff, ok := blk.Instrs[len(blk.Instrs)-1].(*ssa.If)
-				if !ok {
-					continue
-				}
-				cond, neg := an.StripNot(iff.Cond)
-				cl, ok := cond.(*ssa.Call)
-				if !ok || cl.Call.StaticCallee() == nil || cl.Call.StaticCallee().Name() != "IsZero" || len(cl.Call.Args) != 1 || an.FieldOfLoad(cl.Call.Args[0]) != wt {
-					continue
-				}
-				si := 0
-				if neg {
-					si = 1
-				}
-				if an.OnlyVia(blk, si, st.Block()) {
-					g = true
-				}
-			}
-			c.R.Cond(g, rule, fname+": fixes the write time only when none is set", pos, "the transaction time is taken once, only if the connection has no write time",
+			c.R.Cond(guardedByIsZero(fn, st.Block(), 0), rule, "xBegin: fixes the write time only when none is set", pos, "the transaction time is taken once, only if the connection has no write time",
 				"the write time can be re-stamped although one is already in force (e.g. when a second table joins the transaction): writes of one transaction carry different times")
-			// the same block region stores writeTime and calls ResetContext afterwards
 			okReset := false
 			for _, call := range an.Calls(fn) {
 				if isReset(call) && an.InstrBefore(st, call) {
 					okReset = true
 				}
 			}
-			c.R.Cond(okReset, rule, fname+": installs the fixed time", pos, "ResetContext() follows", "the fixed write time is never installed into the request context")
+			c.R.Cond(okReset, rule, "xBegin: installs the fixed time", pos, "ResetContext() follows", "the fixed write time is never installed into the request context")
 		}
 	}
-	// every transaction end releases a fixed time on every path
-	for _, en := range ends {
-		fn := en.Fn
-		name := en.Name()
-		c.R.SawFunc(name)
+	// releases(fn): every path of fn tests the flag and, when it is set, clears the write time,
+	// clears the flag and reinstalls the context
+	releases := func(fn *ssa.Function) (bool, string) {
 		var test *ssa.BasicBlock
 		ti := 0
 		for _, blk := range fn.Blocks {
@@ -264,19 +298,17 @@ func c05TxTime(c *Ctx) {
 			cond, neg := an.StripNot(iff.Cond)
 			if an.FieldOfLoad(cond) == flag {
 				test = blk
+				ti = 0
 				if neg {
 					ti = 1
 				}
 			}
 		}
 		if test == nil {
-			c.R.Bad(rule, name+": releases the transaction time", c.P.Pos(fn.Pos()), "a transaction end does not look at txFixedWriteTime: the time fixed at BEGIN stays in force for later statements")
-			continue
+			return false, "does not look at txFixedWriteTime"
 		}
-		// every path from function entry to a return passes the test
 		if an.ReturnsReachableAvoiding(fn.Blocks[0], map[*ssa.BasicBlock]bool{test: true}) {
-			c.R.Bad(rule, name+": releases the transaction time", c.P.Pos(fn.Pos()), "some path returns without testing txFixedWriteTime")
-			continue
+			return false, "some path returns without testing txFixedWriteTime"
 		}
 		ts := test.Succs[ti]
 		need := map[string]*ssa.BasicBlock{}
@@ -308,10 +340,36 @@ func c05TxTime(c *Ctx) {
 		}
 		for _, k := range []string{"flag=false", "writeTime=zero", "ResetContext()"} {
 			blk := need[k]
-			ok := blk != nil && !an.ReturnsReachableAvoiding(ts, map[*ssa.BasicBlock]bool{blk: true})
-			c.R.Cond(ok, rule, name+": "+k, c.P.Pos(fn.Pos()), "done on every path on which a transaction time was fixed",
-				"when the transaction time was fixed, some path returns without "+k)
+			if blk == nil || an.ReturnsReachableAvoiding(ts, map[*ssa.BasicBlock]bool{blk: true}) {
+				return false, "when the transaction time was fixed, some path returns without " + k
+			}
 		}
+		return true, ""
+	}
+	for _, en := range ends {
+		fn := en.Fn
+		name := en.Name()
+		c.R.SawFunc(name)
+		ok, why := releases(fn)
+		if !ok {
+			// through a helper: every path to a return passes a call of a releasing same-package function
+			hb := map[*ssa.BasicBlock]bool{}
+			for _, call := range an.Calls(fn) {
+				cal := call.Common().StaticCallee()
+				if cal == nil || an.PkgPathOf(cal) != core.ModPath+"/sqlite" || len(cal.Blocks) == 0 {
+					continue
+				}
+				if r, _ := releases(cal); r {
+					hb[call.Block()] = true
+				}
+			}
+			if len(hb) > 0 && !an.ReturnsReachableAvoiding(fn.Blocks[0], hb) {
+				ok = true
+			}
+		}
+		c.R.Cond(ok, rule, name+": releases the transaction time", c.P.Pos(fn.Pos()),
+			"on every path: if the time was fixed at BEGIN it is cleared, the flag reset and the context reinstalled (inline or through a helper)",
+			"a transaction end keeps the time fixed at BEGIN in force ("+why+"): later statements and the next transaction run with a stale write time")
 	}
 	if len(ends) < 2 || len(begins) < 1 {
 		c.R.Errorf("expected Transactional Begin/Commit/Rollback implementations in package sqlite, found %d begin / %d end", len(begins), len(ends))
